@@ -53,6 +53,8 @@ def puny(label):
     return label.encode("idna").decode("ascii")
 
 
+# no surrogates, no control characters (ural strips C0/C1 before parsing), no separators (stripped at the edges / not part of a URL)
+WILD_NONASCII = st.characters(min_codepoint=0xA1, blacklist_categories=("Cs", "Cc", "Zs", "Zl", "Zp"))
 _CACHE = {}
 
 
@@ -79,6 +81,8 @@ def _token_strategy(component, weights=None):
             classes.append(st.sampled_from(TOK[c]))
     if RAW_DELIMS.get(component):
         classes.append(st.sampled_from(RAW_DELIMS[component]))
+    # any other non-ASCII character (letters, digits, marks, symbols, format characters of every script): the fixed alphabet cannot list them all
+    classes.append(WILD_NONASCII)
     return st.one_of(*classes)
 
 
